@@ -53,7 +53,7 @@ func decodeScope(c *core.Ctx, l *core.Ledger) map[*ssa.Function]core.CGEdge {
 }
 
 func checkC03(c *core.Ctx, l *core.Ledger) {
-	l.Explanation = "Static clauses of C03 on the decode scope D (functions of protocol/binary, wire, internal/frame reachable from the decoding entry points over the callback-gated call graph; computed each run): (NEGLEN) every signed 32-bit length read from the wire is sign-checked on every path before it is used as a size, count, skip distance or loop bound (interprocedural field-based taint with dominance-by-edge sanitizers); (EXH-ERR) every switch over wire.Type in D handles all 11 codes and its default returns an error; (BOOL-CANON) ReadBool succeeds only on bytes 0 and 1 with the right value; (LOOP) every loop in D is counted against a loop-invariant bound or consumes input on every iteration; (REC) every recursive cycle in D passes a consuming read or is structural on an in-memory value; (PANIC) every potentially panicking SSA instruction in D (explicit panic, unchecked type assertion, non-constant index/slice, make with non-constant size, integer division) falls in a verified discharge class; (SKIP=READ) Skip consumes per wire type the same width sequence as ReadValue; (POOL-*) pooled readers/writers/lazy lists are completely re-initialised when borrowed or reset before they are returned, nothing touches them after Put, no double Put — so a decode cannot observe (or crash on) state left by an earlier one; (FULL-READ) the wrapped io.Reader is used only through full-read primitives (io.ReadFull/io.CopyN), so a read or skip of n bytes consumes exactly n under any segmentation. (EVAL-COMPLETE) wire.EvaluateValue — what 'forcing every lazily decoded container' means here — hands, per container wire type and on every success path, every Value-typed component (both key and value of each map item, each element of a set or list, the value of each struct field) to EvaluateValue again and looks at every error, so an invalid element cannot hide behind a successful decode. NOT decided: totality over all byte strings as such (nil dereference, stdlib, bytes.Buffer growth are assumed safe), stack depth on deeply nested input (depth is bounded by input length, not by a constant), re-encoding equality of consumed prefix."
+	l.Explanation = "Static clauses of C03 on the decode scope D (functions of protocol/binary, wire, internal/frame reachable from the decoding entry points over the callback-gated call graph; computed each run): (NEGLEN) every signed 32-bit length read from the wire is sign-checked on every path before it is used as a size, count, skip distance or loop bound (interprocedural field-based taint with dominance-by-edge sanitizers); (WIDE-ARITH) a count read from the wire is multiplied or shifted only in 64 bits, so count × width cannot wrap; (EXH-ERR) every switch over wire.Type in D handles all 11 codes and its default returns an error; (BOOL-CANON) ReadBool succeeds only on bytes 0 and 1 with the right value; (LOOP) every loop in D is counted against a loop-invariant bound or consumes input on every iteration; (REC) every recursive cycle in D passes a consuming read or is structural on an in-memory value; (PANIC) every potentially panicking SSA instruction in D (explicit panic, unchecked type assertion, non-constant index/slice, make with non-constant size, integer division) falls in a verified discharge class; (SKIP=READ) Skip consumes per wire type the same width sequence as ReadValue; (POOL-*) pooled readers/writers/lazy lists are completely re-initialised when borrowed or reset before they are returned, nothing touches them after Put, no double Put — so a decode cannot observe (or crash on) state left by an earlier one; (FULL-READ) the wrapped io.Reader is used only through full-read primitives (io.ReadFull/io.CopyN), so a read or skip of n bytes consumes exactly n under any segmentation. (EVAL-COMPLETE) wire.EvaluateValue — what 'forcing every lazily decoded container' means here — hands, per container wire type and on every success path, every Value-typed component (both key and value of each map item, each element of a set or list, the value of each struct field) to EvaluateValue again and looks at every error, so an invalid element cannot hide behind a successful decode. NOT decided: totality over all byte strings as such (nil dereference, stdlib, bytes.Buffer growth are assumed safe), stack depth on deeply nested input (depth is bounded by input length, not by a constant), re-encoding equality of consumed prefix."
 	l.RuleText = "one obligation per (rule, construct) in D; non-trivial = a guard, path or table had to be examined"
 	l.Assumptions = []string{"io.Reader/io.ReaderAt implementations honour 0 <= n <= len(p)", "stack depth is bounded by input length (each recursion level consumes >= 1 byte), not by a constant", "nil dereference and stdlib internals are outside the ledger"}
 	d := decodeScope(c, l)
@@ -242,6 +242,8 @@ func checkNegLen(c *core.Ctx, l *core.Ledger, dl []*ssa.Function, inD func(*ssa.
 		}
 	}
 	l.Floor("NEGLEN", 6)
+
+	checkWideArith(c, l, dl, inD)
 }
 
 // ---- BOOL-CANON -----------------------------------------------------------------
@@ -1337,7 +1339,7 @@ func checkSkipRead(c *core.Ctx, l *core.Ledger, m *wireModel) {
 			}
 			// a struct is header (value header)*: whether the header read sits before the loop and at its
 			// end, or once at its top, is the same sequence; the repetition is carried by the value skip
-			hdrNorm := func(s string) string { return strings.ReplaceAll(s, "loop:u8→", "u8→") }
+			hdrNorm := func(s string) string { return commuteNorm(strings.ReplaceAll(s, "loop:u8→", "u8→")) }
 			l.Add(core.Obligation{Rule: "SKIP=READ", Key: key, Pos: c.Rel(f.Pos()), Status: st(dedupShapes(hdrNorm(got)) == dedupShapes(hdrNorm(want))),
 				Detail: "bytes consumed when skipping this type; extracted " + got + "; Thrift row " + want})
 		}
@@ -1502,4 +1504,84 @@ var skipSigWant = map[int64]string{
 	13: "[u8→ u8→ be32→ alt{!fw(T1)>0|!fw(T1)>0 loop:call:Skip(T1) loop:call:Skip(T2)|fw(T1)>0 !fw(T2)>0|fw(T1)>0 !fw(T2)>0 loop:call:Skip(T1) loop:call:Skip(T2)|fw(T1)>0 fw(T2)>0 discard((T3*(fixedWidth(T1)+fixedWidth(T2))))}]",
 	14: "[u8→ be32→ alt{!fw(T1)>0|!fw(T1)>0 loop:call:Skip(T1)|fw(T1)>0 discard((fixedWidth(T1)*T2))}]",
 	15: "[u8→ be32→ alt{!fw(T1)>0|!fw(T1)>0 loop:call:Skip(T1)|fw(T1)>0 discard((fixedWidth(T1)*T2))}]",
+}
+
+// checkWideArith (WIDE-ARITH), see the explanation of C03.
+func checkWideArith(c *core.Ctx, l *core.Ledger, dl []*ssa.Function, inD func(*ssa.Function) bool) {
+	ri32 := c.LookupFunc("protocol/binary", "StreamReader.ReadInt32")
+	if ri32 == nil {
+		l.Unk("WIDE-ARITH", "anchor", "", "StreamReader.ReadInt32 not found")
+		return
+	}
+	// WIDE-ARITH: a count or length from the wire is multiplied (or shifted) only in 64 bits. In 32 bits the
+	// product of a count and an element width wraps, so a header announcing 2^29 eight-byte items is skipped
+	// as zero bytes by one decoder and rejected by the other.
+	nw := 0
+	for _, f := range dl {
+		k := 0
+		for _, call := range core.Calls(f) {
+			cv, ok := call.(*ssa.Call)
+			if !ok {
+				continue
+			}
+			o := core.CalleeObj(call)
+			isSrc := o == ri32 || (o != nil && o.Name() == "ReadInt32" && call.Common().IsInvoke())
+			if !isSrc {
+				continue
+			}
+			var src ssa.Value
+			for _, r := range *cv.Referrers() {
+				if ex, ok := r.(*ssa.Extract); ok && ex.Index == 0 {
+					src = ex
+				}
+			}
+			if src == nil {
+				continue
+			}
+			k++
+			nw++
+			t := &core.Taint{C: c, Scope: inD, Sanitized: func(*ssa.Function, ssa.Value, *ssa.BasicBlock) bool { return false }, Sink: func(in ssa.Instruction, op ssa.Value) (string, bool) {
+				bo, ok := in.(*ssa.BinOp)
+				if !ok || (bo.Op != token.MUL && bo.Op != token.SHL) {
+					return "", false
+				}
+				if _, isK := core.ConstInt(bo.X); isK {
+					if _, isK2 := core.ConstInt(bo.Y); isK2 {
+						return "", false
+					}
+				}
+				if b, isB := bo.Type().Underlying().(*types.Basic); isB && b.Info()&types.IsInteger != 0 {
+					switch b.Kind() {
+					case types.Int64, types.Uint64, types.Int, types.Uint, types.Uintptr:
+						return "", false
+					}
+					return "narrow " + bo.Op.String(), true
+				}
+				return "", false
+			}}
+			t.Run([]ssa.Value{src})
+			key := fmt.Sprintf("%s:ReadInt32#%d", core.SSAName(f), k)
+			if len(t.Hits) > 0 {
+				h := t.Hits[0]
+				l.Bad("WIDE-ARITH", key, c.Rel(call.Pos()), fmt.Sprintf("a count read from the wire is multiplied in fewer than 64 bits at %s: the product wraps for large counts, and the bytes skipped no longer match the bytes announced", c.Rel(h.Instr.Pos())), h.Trail...)
+			} else {
+				l.Ok("WIDE-ARITH", key, c.Rel(call.Pos()), "every product of this count is computed in 64 bits")
+			}
+		}
+	}
+	l.Floor("WIDE-ARITH", 6)
+}
+
+var reProduct = regexp.MustCompile(`\((\w+(?:\([^()]*\))?)\*(\w+(?:\([^()]*\))?)\)`)
+
+// commuteNorm orders the operands of simple products, so that a*b and b*a render alike.
+func commuteNorm(s string) string {
+	return reProduct.ReplaceAllStringFunc(s, func(m string) string {
+		sub := reProduct.FindStringSubmatch(m)
+		a, b := sub[1], sub[2]
+		if b < a {
+			a, b = b, a
+		}
+		return "(" + a + "*" + b + ")"
+	})
 }
